@@ -38,7 +38,8 @@ func SeencheckItem(item *models.Item) error {
 			}
 
 			newURL := gocrawlhq.URL{
-				Value: items[i].GetURL().Raw,
+				// The canonical form: it is what gets fetched, and what the answer is matched against below
+				Value: items[i].GetURL().String(),
 				Type:  source,
 			}
 
